@@ -349,6 +349,30 @@ fn tiny_tables(rng: &mut Rng) -> Vec<(Vec<u8>, Cfg)> {
     out
 }
 
+/// compress-only archives whose sizes table is LONG (arithmetic on block counts: 2^32 / block size
+/// entries and around it), every entry small
+fn long_tables(rng: &mut Rng) -> Vec<(Vec<u8>, Cfg, String)> {
+    let cfg = Cfg { layers: L_COMP, level: 5, recipients: vec![], reader: 0 };
+    let mut out = vec![];
+    let hdr = b"MLA\x01\x00\x00\x00\x02\x00".to_vec();
+    let wrap = ((1u64 << 32) / CONSTS.block as u64) as usize;
+    let mut ns = vec![1000usize, 1024, 1025, 5000, 70_000];
+    if wrap < 200_000 { ns.extend([wrap, wrap + 1, wrap + 2]); }
+    for n in ns {
+        let mut t = vec![];
+        t.extend_from_slice(&(n as u64).to_le_bytes());
+        for i in 0..n { t.extend_from_slice(&(1 + (i % 3) as u32).to_le_bytes()); }
+        t.extend_from_slice(&5u32.to_le_bytes());
+        let mut v = hdr.clone();
+        v.extend_from_slice(&rng.bytes(2 * n + 7, 3));
+        let l = t.len() as u32;
+        v.extend_from_slice(&t);
+        v.extend_from_slice(&l.to_le_bytes());
+        out.push((v, cfg.clone(), format!("corpus:long-sizes-table:{n}")));
+    }
+    out
+}
+
 // ---------------------------------------------------------------------------------------------
 // parent side
 
@@ -371,6 +395,7 @@ pub fn run(ctx: &Ctx) -> Report {
         let (b, c) = huge_sizes_case(&mut rng);
         cases.push((b, c, "corpus:huge-sizes-entry".into()));
         for (b, c) in tiny_tables(&mut rng) { cases.push((b, c, "corpus:tiny-sizes-table".into())); }
+        cases.extend(long_tables(&mut rng));
         {
             // D7: footer length larger than the archive; D1: last chunk shorter than a tag
             let cfg = Cfg::plain();
